@@ -114,6 +114,12 @@ func C13(p *Prog, r *Run) {
 			}
 		}
 		r.Check(okAll, "Flush.visits-all", p.Pos(flush.Pos()), "Flush calls Flushback on every element of allNodes", "Network.Flush does not call Flushback on every element of allNodes")
+		for _, c := range cs {
+			if l := InnermostLoop(Loops(flush), c.Block()); l != nil {
+				w := returnsBypassing(p, flush, l)
+				r.Check(w == "", "Flush.unconditional", p.Pos(flush.Pos()), "every return of Flush lies inside or after the loop over the nodes", "Network.Flush can return at "+w+" without visiting the nodes: whatever condition is tested there, run-time state written by an earlier (possibly failed or partial) activation survives the flush")
+			}
+		}
 		// the sweeps iterate allNodes (and controlNodes for modules)
 		as := p.Func(PkgN, "Network.ActivateSteps")
 		ta := NewTermer(as)
@@ -298,6 +304,8 @@ func C13(p *Prog, r *Run) {
 			r.Bad("Fast.Flush.loop", p.Pos(flush.Pos()), "Flush has no reset loop")
 			return
 		}
+		wb := returnsBypassing(p, flush, resetLoop)
+		r.Check(wb == "", "Fast.Flush.unconditional", p.Pos(flush.Pos()), "every return of Flush lies inside or after the reset loop", "the fast solver's Flush can return at "+wb+" without resetting the signals")
 		bound, ph, ok := loopCounterFrom(resetLoop, tm)
 		okB := ok && bound.String() == "recv.totalNeuronCount"
 		init := ""
@@ -396,4 +404,19 @@ func (r *Run) checkActivationSumExempt(effects []Effect, re *Reach) {
 		})
 	}
 	r.Check(ok, "NNode.ActivationSum", p.Pos(zero.Pos()), "exempt: zero-stored in the sweep before it is accumulated or read", "ActivationSum is not reset by Flushback and the exemption does not hold: "+why)
+}
+
+// returnsBypassing names a return of fn that is neither inside loop l nor dominated by its header ("" if none).
+func returnsBypassing(p *Prog, fn *ssa.Function, l *Loop) string {
+	for _, b := range fn.Blocks {
+		if len(b.Instrs) == 0 {
+			continue
+		}
+		ret, ok := b.Instrs[len(b.Instrs)-1].(*ssa.Return)
+		if !ok || l.Blocks[b] || l.Header.Dominates(b) {
+			continue
+		}
+		return p.Pos(ret.Pos())
+	}
+	return ""
 }
